@@ -168,8 +168,29 @@ def check(run: Run) -> None:
         if len(cs) != 1:
             run.finding("C12.f", "switch_node_stop", "stop must tear down the active branch", loc=SW)
 
+    with run.obligation("C12.g", "K7", "every branch that select_branch can return (each explicit branch and the default) is accounted for in the storage slot the "
+                        "fresh child graph is built in: switch_graph_slot_layout takes the maximum over the same set"):
+        fa = R.fn(run, SW, "switch_graph_slot_layout")
+        cn = R.aliases_of(fa)
+        inc = [c for c in R.calls(fa, "include_layout")]
+        args = sorted(cn(c.args[0]) for c in inc if c.args)
+        loops_ = [l for l in R.loops(fa) if isinstance(l, C.RangeFor) and cn(l.range) == "spec.branches" and R.calls(l.body, "include_layout")]
+        dflt = [s0 for s0 in fa.body.walk() if isinstance(s0, C.If) and cn(s0.cond).replace(" ", "") == "spec.default_branch.has_value()" and R.calls(s0.then, "include_layout")]
+        run.sites(len(inc), 1, "include_layout calls")
+        run.count(1, "C12.g")
+        if not loops_ or "branch.spec" not in args:
+            run.finding("C12.g", "switch_graph_slot_layout:explicit-branches", f"the slot layout must include every explicit branch: {args}", loc=SW)
+        if not dflt or not any(a in ("*spec.default_branch", "spec.default_branch.value()") for a in args):
+            run.finding("C12.g", "switch_graph_slot_layout:default-branch", "the slot layout does not include the DEFAULT branch although select_branch can return it: a default "
+                        f"branch larger than every explicit branch is constructed in a slot that is too small ({args})", loc=SW)
+        lam = R.find(fa, lambda n: isinstance(n, C.Declarator) and n.name == "include_layout" and isinstance(n.init, C.Lambda))
+        txt = " ".join(cn(x) for x in lam[0].init.body.walk() if isinstance(x, C.Binary) and x.op == "=") if lam else ""
+        if "std::max(layout.size,branch_layout.size)" not in txt.replace(" ", "") or "std::max(layout.alignment,branch_layout.alignment)" not in txt.replace(" ", ""):
+            run.finding("C12.g", "switch_graph_slot_layout:max", f"size and alignment must be the maximum over the branches: {txt}", loc=SW)
+
 
 VARIANTS = [
+    {"id": "g-default-branch-not-in-layout", "expect": "C12.g", "edits": [{"file": SW, "find": "  if (spec.default_branch.has_value()) {\n    include_layout(*spec.default_branch);\n  }\n  return layout;", "replace": "  return layout;"}]},
     {"id": "d-inputs-bound-unsampled", "expect": "C12.d", "edits": [{"file": SW, "find": "  bind_branch_inputs(view, spec, next, evaluation_time, true);", "replace": "  bind_branch_inputs(view, spec, next, evaluation_time);"}]},
     {"id": "a-reselect-on-every-tick", "expect": "C12.a", "edits": [{"file": SW, "find": "    if (!storage.active_slot.has_value() || context.spec.reload_on_ticked ||\n        !same_key) {", "replace": "    if (!storage.active_slot.has_value() || context.spec.reload_on_ticked ||\n        !same_key || key_input.modified()) {"}]},
     {"id": "a-ignores-key-change", "expect": "C12.a", "edits": [{"file": SW, "find": "    if (!storage.active_slot.has_value() || context.spec.reload_on_ticked ||\n        !same_key) {", "replace": "    if (!storage.active_slot.has_value() || context.spec.reload_on_ticked) {"}]},
